@@ -196,7 +196,7 @@ def run_property(pid: str, tier: str, seed: int) -> int:
     for con in cons:
         try:
             rep = engine.verify_function(con)
-        except Exception as e:  # noqa: BLE001
+        except (Exception, engine.ContractError) as e:  # noqa: BLE001
             traceback.print_exc()
             print(f"CHECKER-ERROR: internal error while executing {con.qual}: {e!r}")
             return 3
@@ -361,6 +361,18 @@ def run_property(pid: str, tier: str, seed: int) -> int:
                         witness_text += " " + json.dumps(rr.get("witness", ""), default=str)
                     except Exception as e:  # noqa: BLE001
                         replay["replay_error"] = repr(e) + "\n" + traceback.format_exc()
+        if o is None and verdict == "refuted":
+            for pref, fn in REPLAYERS.items():
+                if name.startswith(pref):
+                    try:
+                        rr = fn(None)
+                        if rr:
+                            replay["replay"] = rr
+                            reproduced = bool(rr.get("reproduced"))
+                            witness_text += " " + json.dumps(rr.get("witness", ""), default=str)
+                    except Exception as e:  # noqa: BLE001
+                        replay["replay_error"] = repr(e) + "\n" + traceback.format_exc()
+                    break
         k = match_known(name, witness_text)
         if k is not None:
             line = f"KNOWN-FINDING: property={pid} {k['text']}"
